@@ -695,15 +695,22 @@ def work_tight(shard):
         # small values still make the round trip when they fit
         okf, f2 = _guard(part, cls, case, s.evaluate, b'FRE("")')
         exists = False
+        taken = 0
         if not ok and kind == 'array':
-            # (the array itself may have been dimensioned 0..10 before its first element was refused: that memory is
-            # accounted for, if the array is there)
+            # (the array itself may have been dimensioned 0..10 before an element was refused, and the elements before
+            # the refused one are assigned one by one as BASIC statements would: that memory is accounted for, if the
+            # array is there and holds them)
             okx, arr = _guard(part, cls, case, s.get_variable, name)
             exists = bool(okx and arr is not None and len(arr) == 11)
+            if exists:
+                taken = 48 + sum(len(x) for x in arr)
+                if any(x not in (b'', value, b'z') for x in arr):
+                    part.violation(cls + '/refused-array-holds-foreign-value', 'after the refused set_variable(%s) the array reads %r' % (
+                        name, arr), case)
         if okf and f2 is None:
             part.violation(cls + '/free-memory-cannot-be-evaluated', 'after the %s set_variable(%s) with %d bytes free FRE("") cannot be evaluated' % (
                 'stored' if ok else 'refused', name, f1), case)
-        if not ok and okf and f2 is not None and f2 < f1 - (48 if exists else 0):
+        if not ok and okf and f2 is not None and f2 < f1 - taken:
             part.violation(cls + '/memory-lost-by-refused-value',
                            'with %d bytes free set_variable(%s) was refused; afterwards FRE("") is %r' % (f1, name, f2), case)
         if okf and f2 is not None and f2 >= 16:
